@@ -12,4 +12,4 @@ import (
 
 // simDial is a deterministic-simulation transport hook; without the "verif"
 // build tag it compiles to nothing.
-func simDial(context.Context, string) (net.Conn, bool, error) { return nil, false, nil }
+func simDial(context.Context, string, string) (net.Conn, bool, error) { return nil, false, nil }
